@@ -18,6 +18,7 @@ MANIFEST = {
     'technique': 'runtime post-condition monitors + differential oracle between capped/uncapped runs and stage-wise re-extraction on the real functions',
 }
 LOGGER_ON_ODD_SHARDS = 'quarter'   # (sifting logs heavily: a quarter of the shards run with the logger set up)
+SESSION_NOISE = True      # every shard starts after unrelated session activity (harness.session_noise)
 BUDGET_S = {'quick': 75, 'thorough': 480}
 NCASES = {'quick': 480, 'thorough': 8000}
 RULE = ('seeded random signals (noise, walks, tones+trend, AM/FM, integer-valued) of 60..400 samples x variant x option '
@@ -262,7 +263,7 @@ def gen_case(rng, variant):
          'cap_sample': rng.integers(4, 40, 3)}
     if variant == 'mask':
         c['mask'] = {'mask_amp_mode': gens.pick(rng, ['abs', 'ratio_sig', 'ratio_imf']),
-                     'mask_freqs': (float(gens.pick(rng, [0.3, 0.2, 0.12])) if rng.random() < .6 else [0.3, 0.14, 0.07, 0.03, 0.015, 0.007]),
+                     'mask_freqs': (float(gens.pick(rng, [0.3, 0.2, 0.12])) if rng.random() < .6 else gens.pick(rng, [[0.3, 0.14, 0.07, 0.03, 0.015, 0.007], [.4, .2, .1, .05, .025, 0], [.3, 0.0, .1, .05]])),
                      'mask_amp': (float(gens.pick(rng, [1, .5, 2])) if rng.random() < .6 else rng.uniform(.4, 2, 12)),
                      'nphases': int(gens.pick(rng, [1, 2, 4])), 'mask_step_factor': float(gens.pick(rng, [2, 3, 1.5]))}
     elif variant in ('ens', 'cens'):
